@@ -11,6 +11,12 @@ pub(in crate::sys) struct BufControl {
 impl BufControl {
     pub fn new(bufs: &[Slot]) -> Self {
         assert!(bufs.len() < u16::MAX as _);
+        #[cfg(compio_verif)]
+        crate::verif::emit(
+            crate::verif::POOL_BUF,
+            bufs.len() as u64,
+            crate::verif::pool::NEW_FALLBACK,
+        );
         Self {
             queue: bufs.iter().enumerate().map(|(id, _)| id as u16).collect(),
         }
@@ -22,6 +28,15 @@ impl BufControl {
     }
 
     pub fn pop(&mut self) -> io::Result<u16> {
+        #[cfg(compio_verif)]
+        match self.queue.front() {
+            Some(id) => crate::verif::emit(
+                crate::verif::POOL_BUF,
+                *id as u64,
+                crate::verif::pool::POP,
+            ),
+            None => crate::verif::emit(crate::verif::POOL_BUF, 0, crate::verif::pool::POP_EMPTY),
+        }
         self.queue.pop_front().ok_or_else(|| {
             io::Error::new(
                 io::ErrorKind::ResourceBusy,
